@@ -35,9 +35,48 @@ MODULES = ["serializer.py", "constants.py", "_tokenizer.py", "html5parser.py", "
 REL = "serializer.py"
 
 
+def canonical_serialize(f):
+    """HTMLSerializer.serialize with its locals renamed, by role, to the names the rules are written in (token, type, name,
+    in_cdata, attr_name, attr_value, k, v, quote_attr, quote_char, doctype)."""
+    import copy
+    from ..repo import discover_locals, rename_locals
+
+    def simple(st):
+        return isinstance(st, ast.Assign) and len(st.targets) == 1 and isinstance(st.targets[0], ast.Name)
+    loops = [s for s in ast.walk(f.node) if isinstance(s, ast.For) and isinstance(s.target, ast.Name) and norm(s.iter) == "treewalker"]
+    tokv = loops[0].target.id if len(loops) == 1 else None
+    if tokv is None:
+        return f
+    mapping = {tokv: "token"}
+    attr_loop = [s for s in ast.walk(f.node) if isinstance(s, ast.For) and isinstance(s.target, ast.Tuple) and len(s.target.elts) == 2
+                 and isinstance(s.target.elts[0], ast.Tuple) and len(s.target.elts[0].elts) == 2 and norm(s.iter) == "%s['data'].items()" % tokv]
+    an = av = None
+    if len(attr_loop) == 1:
+        (_a, b), c = attr_loop[0].target.elts[0].elts, attr_loop[0].target.elts[1]
+        if isinstance(b, ast.Name) and isinstance(c, ast.Name):
+            an, av = b.id, c.id
+            mapping.update({an: "attr_name", av: "attr_value"})
+    trues = {st.targets[0].id for st in ast.walk(f.node) if simple(st) and isinstance(st.value, ast.Constant) and st.value.value is True}
+    roles = [
+        ("type", lambda st: st.targets[0].id if simple(st) and norm(st.value) == "%s['type']" % tokv else None),
+        ("name", lambda st: st.targets[0].id if simple(st) and norm(st.value) == "%s['name']" % tokv else None),
+        ("in_cdata", lambda st: st.targets[0].id if simple(st) and isinstance(st.value, ast.Constant) and st.value.value is False
+         and st.targets[0].id in trues and st in f.node.body else None),
+        ("k", lambda st: st.targets[0].id if simple(st) and an and norm(st.value) == an else None),
+        ("v", lambda st: st.targets[0].id if simple(st) and av and norm(st.value) == av else None),
+        ("quote_attr", lambda st: st.targets[0].id if simple(st) and ".search(" in norm(st.value) and "is not None" in norm(st.value) else None),
+        ("quote_char", lambda st: st.targets[0].id if simple(st) and norm(st.value) == "self.quote_char" else None),
+        ("doctype", lambda st: st.targets[0].id if simple(st) and "<!DOCTYPE" in norm(st.value) else None),
+    ]
+    mapping.update(discover_locals(f.node, roles))
+    g = copy.copy(f)
+    g.node = rename_locals(f.node, mapping)
+    return g
+
+
 def serialize_cfg(ctx):
     def build():
-        f = ctx.repo.func(REL, "HTMLSerializer.serialize")
+        f = canonical_serialize(ctx.repo.func(REL, "HTMLSerializer.serialize"))
         return f, CFG(f.node)
     return ctx.shared("serialize_cfg", build)
 
